@@ -33,6 +33,30 @@ loop(F_PAXOS, "PaxosNode._start_phase2", 1, modifies=[("PaxosNode", "g_pick")],
         L.self, seq_term(L.seq), L.i, L.self.g_pick, L.chosen_value, registered_value(L.old(L.self), L.ballot_number),
         L.highest_accepted_ballot))])
 
+# DistributedLock._wake_next_waiter pops waiters in arrival order until it meets one whose future is still pending
+# (that one is granted the lock and the loop is left by `break`, so at every loop head nothing was granted yet)
+loop(F_LOCK, "DistributedLock._wake_next_waiter", 1, modifies=[("_LockState", "waiters")], inv=[
+    ("remaining-queue-is-a-suffix-of-arrival-order", lambda L: mk_bool(z3.SuffixOf(q_of(L.state), q_of(L.old(L.state))))),
+    ("every-waiter-passed-over-had-already-been-answered", lambda L: skipped_were_resolved(
+        L.old(L.state), mk_num(z3.Length(q_of(L.old(L.state))) - z3.Length(q_of(L.state))))),
+    ("queues-of-other-locks-untouched", lambda L: only_this_lock_state_changes(L.old(L.state)._frozen, L.state, ("waiters",)))])
+
+F_FLEX = "happysimulator/components/consensus/flexible_paxos.py"
+F_MULTI = "happysimulator/components/consensus/multi_paxos.py"
+# _handle_prepare of the slot-based nodes copies the whole log into the promise (a list comprehension over a list of
+# symbolic length): cut, the copy is an opaque list
+loop(F_FLEX, "FlexiblePaxosNode._handle_prepare", "comp1", modifies=[], inv=[], types={"entries": lambda: Seq(Any)})
+loop(F_MULTI, "MultiPaxosNode._handle_prepare", "comp1", modifies=[], inv=[], types={"entries": lambda: Seq(Any)})
+F_LE = "happysimulator/components/consensus/leader_election.py"
+# LeaderElection._handle_election_message forwards whatever messages the strategy answers with (any number): the loop
+# only builds events, it writes no state
+# (engine aid, no claim: the local result list starts as a symbolic empty list so that `events.extend(<symbolic list>)` is modelled)
+ghost(F_LE, "LeaderElection._handle_timeout_check", "events: list[Event] = []", "import specs.C12 as _S; events = _S.empty_events()")
+loop(F_LE, "LeaderElection._handle_timeout_check", 1, modifies=[], types={"events": lambda: Seq(Ref(Event))}, inv=[
+    ("only-heartbeats-naming-this-node-and-its-current-term-are-built", lambda L: heartbeats_ok(L.self, L.events))])
+LE_LOOP = loop(F_LE, "LeaderElection._handle_election_message", 1, modifies=[], inv=[],
+               types={"events": lambda: Seq(Ref(Event))})      # (.elem is set where the message type is defined)
+
 from specs.common import *  # noqa: E402,F401
 
 from happysimulator.components.consensus.paxos import Ballot, PaxosNode  # noqa: E402
@@ -63,6 +87,24 @@ PROPERTY = {
         "`_clock = None` is outside the attached-entity typing of specs/common.py)",
         "DistributedLock._grant_lock: the state passed in belongs to this manager or is fresh (its token is below the "
         "counter) and lease_duration >= 0",
+        "DistributedLock: lease_duration >= 0 (class invariant `configuration-lease-nonnegative`, a constructor argument that "
+        "is never written); heap typing: the lease event stored in a lock state exists at entry (is not an object allocated "
+        "later); SimFuture.resolve runs no callback that re-enters the lock manager (stub); LockAcquireRequest messages carry "
+        "no reply_future (the optional reply plumbing of _handle_acquire_request is not modelled); the lease-expiry event "
+        "created by a grant is only stored (`_pending_expiry`) - scheduling it is left to the caller by the component's design",
+        "DistributedLock._grant_lock is used as a contract by every caller (try_acquire, acquire, _wake_next_waiter, "
+        "_release_lock, release, _handle_lease_expiry, handle_event): what is assumed after the call is exactly what the task "
+        "DistributedLock._grant_lock proves (token, holder, lease event, frame); its modifies list is that frame",
+        "LeaderElection: heartbeats carry leader and term (well-formed-heartbeat); the election strategy is used through its "
+        "interface only - its answers are arbitrary (so the clauses hold for every strategy) except that get_election_messages "
+        "returns at most 3 messages (bounded: the code iterates that list natively) and handle_election_message's answer has "
+        "the key response_messages; Network.send (stub) builds one event of the given type addressed to the network, "
+        "stamped with source/destination, copying a literal {leader, term} payload; LeaderElection._start_election is used "
+        "as a contract inside _handle_election_message and _handle_timeout_check (proved by its own task)",
+        "slot-based nodes (FlexiblePaxosNode, MultiPaxosNode): clusters of 3..5 nodes; well-formed messages (ballot keys, slot, "
+        "command); Log invariant 0 <= commit_index <= len(entries) (focus object); _become_leader is used through an ASSUMED "
+        "contract (never lowers the ballot, only appends to the log) and _apply_committed through an assumed frame (applied "
+        "counter, futures) - neither is verified here; the promise's log copy (list comprehension) is an opaque list",
         "cross-node composition (agreement = A1 + A2 + A3 + quorum intersection, validity = value provenance clauses) is the "
         "classical Paxos argument over the proved per-node clauses; it is not machine-checked.  Liveness clauses of the "
         "statement (eventually decided / applied) are not decided by this check; the bounded stand-in only observes that "
@@ -218,6 +260,8 @@ MSG = Record("paxosmsg", {
     "highest_ballot_number": Int, "highest_ballot_node": Str,
     "value": Any, "original_ballot": Int,
     "lock_name": Str, "fencing_token": Int, "requester": Str,
+    "leader": Str, "term": Int,
+    "slot": Int, "command": Any, "commit_index": Int, "log_entries": Any, "self_heartbeat": Any, "log_length": Int,
 })
 M = MSG.dt
 
@@ -234,6 +278,10 @@ class CtxProxy:
         return RecProxy(self._loc, MSG)
 
     def get(self, k, default=None):
+        if k == "reply_future":
+            # DistributedLock._handle_acquire_request: the optional reply plumbing (a second future that is resolved with
+            # whatever the acquire future resolves to) is not modelled - listed assumption: requests carry none
+            return default
         return self._md(k)
 
     __getitem__ = _md
@@ -557,7 +605,7 @@ fn(PaxosNode, "quorum_size", returns=Int, modifies=[], ensures=[
 # ---- helpers over the messages a handler returns ----------------------------------------------------
 stub_of(SimFuture, "resolve", args={"value": Any}, modifies=["_resolved", "_value"], ensures=[
     lambda s: ite_b(s.old(s.self)._resolved, unchanged(s, s.self, "_resolved", "_value"),
-                    s.self._resolved & (s.self._value == s.value))])
+                    s.self._resolved & any_eq(s.self._value, s.value))])      # (any_eq: the value may be a non-opaque object)
 FUT_RESOLVE = (SimFuture, "resolve")
 
 
@@ -1162,8 +1210,89 @@ cls(DistributedLock, fields={"_lease_duration": Real, "_max_waiters": Int, "_loc
                              "_total_acquires": Int, "_total_releases": Int, "_total_expirations": Int,
                              "_total_rejections": Int, "_pending_expiry": OptRef(Event)},
     inv=[("token-counter-positive", lambda o: o._next_token >= 1),
-         ("every-recorded-token-is-below-the-counter", tokens_below_counter)],
+         ("every-recorded-token-is-below-the-counter", tokens_below_counter),
+         # (so nobody can overtake the queue: a newcomer finds the lock free only when nobody waits for it)
+         ("a-free-lock-has-no-waiters", lambda o: free_locks_have_no_waiters(o)),
+         ("configuration-lease-nonnegative", lambda o: o._lease_duration >= 0)],
     guarantee=[("token-counter-never-decreases", lambda old, new: new._next_token >= old._next_token)])
+
+WAITER = Tuple(Str, Ref(SimFuture))
+LS_FIELDS = ("holder", "fencing_token", "granted_at", "lease_duration", "lease_event", "waiters")
+
+
+def q_of(st):
+    """raw Seq term: the waiter queue of a lock state (arrival order)"""
+    return field_term(st, "waiters")
+
+
+def fut_resolved(ref_t, frozen=None):
+    """raw Bool term: the future with raw reference ref_t is resolved (in the given snapshot)"""
+    return field_term(ObjProxy(ref_t, SimFuture, frozen), "_resolved")
+
+
+def skipped_were_resolved(old_state, k):
+    """the first k waiters of the queue at entry had already been answered at entry"""
+    q0 = q_of(old_state)
+    return forall(Int, lambda i: implies((0 <= i) & (i < k), mk_bool(fut_resolved(WAITER.acc(1)(q0[i.t]), old_state._frozen))), "i")
+
+
+def only_this_lock_state_changes(frozen_old, st, fields=LS_FIELDS):
+    """no _LockState object other than `st` (None: none at all) is written in the listed fields"""
+    c = _ctx.cur()
+
+    def body(r):
+        ps = []
+        for f in fields:
+            owner, ty = REG.field(_LockState, f)
+            ps.append(z3.Select(c.heap.array((owner, f), ty), r._ref) == z3.Select(c.heap.array((owner, f), ty, frozen_old), r._ref))
+        same_vals = mk_bool(z3.And(*ps))
+        return same_vals if st is None else (mk_bool(r._ref == st._ref) | same_vals)
+    return forall(Ref(_LockState), body, "r")
+
+
+def array_unchanged(s, klass, field):
+    """the field is untouched on EVERY object of the class"""
+    c = _ctx.cur()
+    owner, ty = REG.field(klass, field)
+    return mk_bool(c.heap.array((owner, field), ty) == c.heap.array((owner, field), ty, s.old(s.self)._frozen))
+
+
+def holder_none(st):
+    return mk_bool(OPTSTR.dt.is_none(field_term(st, "holder")))
+
+
+def holder_is(st, name):
+    return mk_bool(field_term(st, "holder") == OPTSTR.dt.some(zs(name)))
+
+
+def ls_at(o, name_t):
+    """the state object recorded for the lock named by raw string term name_t (meaningful when the name is known)"""
+    return ObjProxy(z3.Select(LOCKS.dt.val(field_term(o, "_locks")), name_t), _LockState, o._frozen)
+
+
+def lock_known(o, name):
+    return mk_bool(z3.Select(LOCKS.dt.dom(field_term(o, "_locks")), zs(name)))
+
+
+def in_map(o, name, st):
+    """`st` is the state this manager records for lock `name`"""
+    return lock_known(o, name) & mk_bool(ls_at(o, zs(name))._ref == st._ref)
+
+
+def free_locks_have_no_waiters(o):
+    return forall(Str, lambda n: implies(mk_bool(z3.Select(LOCKS.dt.dom(field_term(o, "_locks")), n.t)) & holder_none(ls_at(o, n.t)),
+                                         mk_bool(z3.Length(q_of(ls_at(o, n.t))) == 0)), "n")
+
+
+def resolve_calls():
+    """(future, value) of every SimFuture.resolve on this path, in order (ghost call trace of the stub)"""
+    tr = _ctx.cur().ghost_args.get("trace", [])
+    return [(vals["self"], vals["value"]) for (q, vals, _r) in tr if q == "SimFuture.resolve"]
+
+
+def grant_calls():
+    tr = _ctx.cur().ghost_args.get("trace", [])
+    return [(vals, r) for (q, vals, r) in tr if q == "DistributedLock._grant_lock"]
 
 
 def _grant_post(s):
@@ -1174,12 +1303,68 @@ def _grant_post(s):
             & mk_bool(field_term(s.state, "holder") == OPTSTR.dt.some(zs(s.requester))))
 
 
-fn(DistributedLock, "_grant_lock", args={"state": Ref(_LockState), "lock_name": Str, "requester": Str},
-   requires=[("state-of-a-lock-of-this-manager-or-fresh", lambda s: s.state.fencing_token < s.self._next_token),
-             ("lease-nonnegative", lambda s: s.self._lease_duration >= 0)],
-   ensures=[
+def _grant_lease_post(s):
+    """the lease of this grant: one live expiry event addressed to the manager, naming the lock and THIS token (so the
+    expiry of an earlier grant can be told apart), not in the past; the expiry event of the previous grant is cancelled"""
+    ev = s.state.lease_event
+    if ev is None:
+        return False
+    m = md(ev)
+    ok = (same(ev.target, s.self) & (ev.event_type == "LockLeaseExpiry") & Not(ev._cancelled) & (ns(ev.time) >= now_ns(s.self))
+          & mhas(m, "lock_name", "fencing_token") & (mget(m, "lock_name") == s.lock_name)
+          & (mget(m, "fencing_token") == s.state.fencing_token)
+          & mk_bool(field_term(s.self, "_pending_expiry") == field_term(s.state, "lease_event"))
+          & (s.state.lease_duration == s.self._lease_duration) & (s.result.lease_duration == s.self._lease_duration)
+          & (s.result.granted_at == s.state.granted_at))
+    old_ev = s.old(s.state).lease_event
+    if old_ev is not None:
+        ok = ok & ObjProxy(old_ev._ref, Event)._cancelled
+    return ok
+
+
+def _grant_frame(s):
+    old = s.old(s.self)
+    c = _ctx.cur()
+    owner, ty = REG.field(Event, "_cancelled")
+    now_a, old_a = c.heap.array((owner, "_cancelled"), ty), c.heap.array((owner, "_cancelled"), ty, old._frozen)
+    prev = field_term(s.old(s.state), "lease_event")
+    return (unchanged(s, s.self, "_locks", "_lease_duration", "_max_waiters", "_total_releases", "_total_expirations", "_total_rejections")
+            & (s.self._total_acquires == old._total_acquires + 1) & unchanged(s, s.state, "waiters")
+            & only_this_lock_state_changes(old._frozen, s.state)
+            & array_unchanged(s, SimFuture, "_resolved") & array_unchanged(s, SimFuture, "_value")
+            # no event that existed before is cancelled except the lease event of the previous grant
+            & forall(Ref(Event), lambda e: mk_bool(z3.Or(e._ref == prev, e._ref > old_alloc(s), z3.Select(now_a, e._ref) == z3.Select(old_a, e._ref))), "e"))
+
+
+def old_alloc(s):
+    """allocation frontier at entry (references above it are objects created by the function); as a stub the contract
+    allocates nothing, the frontier is the current one"""
+    a = getattr(s, "g_alloc0", None)
+    return a if a is not None else _ctx.cur().heap.alloc
+
+
+GRANT_ARGS = {"state": Ref(_LockState), "lock_name": Str, "requester": Str}
+GRANT_REQ = [
+    # mutual exclusion: the lock has one holder field, so "at most one holder" is: a grant never overwrites a holder
+    ("only-a-free-lock-is-granted", lambda s: holder_none(s.state)),
+    ("state-of-a-lock-of-this-manager-or-fresh", lambda s: s.state.fencing_token < s.self._next_token)]
+GRANT_ENS = [
     ("grant-carries-a-fresh-token-above-every-earlier-one-and-the-counter-moves-on", _grant_post),
-    ("token-strictly-above-the-locks-previous-token", lambda s: s.result.fencing_token > s.old(s.state).fencing_token)])
+    ("token-strictly-above-the-locks-previous-token", lambda s: s.result.fencing_token > s.old(s.state).fencing_token),
+    ("lease-expiry-is-armed-for-exactly-this-grant-and-the-previous-one-is-cancelled", _grant_lease_post),
+    ("nothing-else-changes", _grant_frame)]
+
+
+def _snap_alloc(s):
+    c = _ctx.cur()
+    s.g_alloc0 = c.heap.alloc
+    st = getattr(s, "state", None)
+    if st is not None:
+        # heap typing: a stored reference denotes an object that exists at entry (not one allocated later)
+        c.assume(field_term(st, "lease_event") <= c.heap.alloc)
+
+
+fn(DistributedLock, "_grant_lock", args=GRANT_ARGS, setup=_snap_alloc, requires=GRANT_REQ, ensures=GRANT_ENS)
 
 
 def _try_acquire_post(s):
@@ -1192,7 +1377,656 @@ def _try_acquire_post(s):
     return (fresh_grant | reentrant) & (r.holder == s.requester) & (r.lock_name == s.lock_name)
 
 
-fn(DistributedLock, "try_acquire", args={"lock_name": Str, "requester": Str},
+# Every caller below uses _grant_lock through its contract: the precondition `only-a-free-lock-is-granted` becomes a
+# call-site obligation wherever a grant is made; what is assumed after the call is what the task above proves.
+stub_of(DistributedLock, "_grant_lock", args=GRANT_ARGS, returns=GRANT, requires=GRANT_REQ, ensures=GRANT_ENS,
+        modifies=["_next_token", "_total_acquires", "_pending_expiry", ("*", "Event", "_cancelled")]
+        + [((lambda s: s.state), f) for f in LS_FIELDS if f != "waiters"])
+GRANT_LOCK = (DistributedLock, "_grant_lock")
+
+
+def state_now(s):
+    """the state object recorded for s.lock_name after the call"""
+    return ls_at(s.self, zs(s.lock_name))
+
+
+def one_fresh_grant(s, st, requester_t):
+    """exactly one grant was made on this path: to `requester_t` (raw Str), on state `st`, with the token the counter
+    showed at entry - strictly above every token handed out before - and the counter moved on by one"""
+    old = s.old(s.self)
+    return (pb(len(grant_calls()) == 1) & mk_bool(field_term(st, "holder") == OPTSTR.dt.some(requester_t))
+            & (st.fencing_token == old._next_token) & (s.self._next_token == old._next_token + 1))
+
+
+def no_grant(s):
+    return pb(len(grant_calls()) == 0) & unchanged(s, s.self, "_next_token", "_total_acquires")
+
+
+def _try_acquire_full(s):
+    old = s.old(s.self)
+    known = lock_known(old, s.lock_name)
+    st_old = ls_at(old, zs(s.lock_name))
+    st = state_now(s)
+    free = Not(known) | holder_none(st_old)
+    mine = known & holder_is(st_old, s.requester)
+    r = s.result
+    if r is None:
+        return Not(free) & Not(mine) & no_grant(s) & only_this_lock_state_changes(old._frozen, None) & lock_known(s.self, s.lock_name)
+    return ite_b(free,
+                 one_fresh_grant(s, st, zs(s.requester)) & (r.fencing_token == old._next_token),
+                 mine & no_grant(s) & (r.fencing_token == st_old.fencing_token) & only_this_lock_state_changes(old._frozen, None))
+
+
+fn(DistributedLock, "try_acquire", args={"lock_name": Str, "requester": Str}, uses=[GRANT_LOCK],
    requires=[("lease-nonnegative", lambda s: s.self._lease_duration >= 0)],
    ensures=[
-    ("a-grant-carries-either-a-fresh-token-above-all-earlier-ones-or-the-holders-own-current-token", _try_acquire_post)])
+    ("a-grant-carries-either-a-fresh-token-above-all-earlier-ones-or-the-holders-own-current-token", _try_acquire_post),
+    ("granted-iff-free-or-already-mine--a-lock-held-by-somebody-else-is-refused-and-nothing-changes", _try_acquire_full)])
+
+
+# ---- acquire: grant / re-entrant / reject / wait at the tail -------------------------------------------------------
+def _acquire_post(s, fut="result"):
+    """fut: the returned future (None when the caller drops it: the message path)"""
+    old = s.old(s.self)
+    known = lock_known(old, s.lock_name)
+    st_old = ls_at(old, zs(s.lock_name))
+    st = state_now(s)
+    calls = resolve_calls()
+    if fut == "result":
+        fut = s.result
+    elif len(calls) == 1:
+        fut = calls[0][0]
+    else:
+        fut = ObjProxy(WAITER.acc(1)(q_of(st)[z3.Length(q_of(st_old))]), SimFuture)
+    free = Not(known) | holder_none(st_old)
+    mine = known & holder_is(st_old, s.requester)
+    full = (old._max_waiters > 0) & mk_bool(z3.Length(q_of(st_old)) >= num(old._max_waiters))
+    fresh_future = mk_bool(fut._ref > s.g_alloc0)
+    if len(calls) == 0:
+        # parked at the TAIL of the queue, still pending; no token is consumed
+        return (Not(free) & Not(mine) & Not(full) & no_grant(s) & fresh_future & Not(fut._resolved)
+                & mk_bool(q_of(st) == z3.Concat(q_of(st_old), z3.Unit(WAITER.dt.mk(zs(s.requester), fut._ref))))
+                & only_this_lock_state_changes(old._frozen, st, LS_FIELDS) & unchanged(s, st, *[f for f in LS_FIELDS if f != "waiters"])
+                & unchanged(s, s.self, "_total_rejections"))
+    if len(calls) != 1:
+        return False
+    f, v = calls[0]
+    ok = same(f, fut) & fresh_future & fut._resolved
+    if v is None:
+        return (ok & Not(free) & Not(mine) & full & no_grant(s) & (s.self._total_rejections == old._total_rejections + 1)
+                & only_this_lock_state_changes(old._frozen, None))
+    ok = ok & (v.holder == s.requester) & (v.lock_name == s.lock_name) & unchanged(s, s.self, "_total_rejections")
+    return ok & ite_b(free,
+                      one_fresh_grant(s, st, zs(s.requester)) & (v.fencing_token == old._next_token),
+                      mine & no_grant(s) & (v.fencing_token == st_old.fencing_token) & only_this_lock_state_changes(old._frozen, None))
+
+
+fn(DistributedLock, "acquire", args={"lock_name": Str, "requester": Str}, uses=[GRANT_LOCK, FUT_RESOLVE], setup=_snap_alloc,
+   ensures=[
+    ("free-lock-is-granted-with-a-fresh-token--holder-gets-its-own-grant-again--full-queue-refuses--else-joins-the-tail", _acquire_post)])
+
+
+# ---- handing the lock on: waiters in arrival order -------------------------------------------------------------------
+def handed_on(s, st, st_old):
+    """after the lock was freed: the first waiter (in arrival order) whose future was still pending is the new holder, with a
+    fresh token, and its future - only that one - resolves with a grant carrying exactly that token; everybody before it
+    had been answered already; the waiters behind it keep their order.  Without a pending waiter the lock is free and
+    the queue is empty."""
+    old = s.old(s.self)
+    q0, q1 = q_of(st_old), q_of(st)
+    n0, n1 = z3.Length(q0), z3.Length(q1)
+    granted = Not(holder_none(st))
+    k = z3.If(to_z3_bool(granted), n0 - n1 - 1, n0 - n1)
+    w = q0[k]
+    calls = resolve_calls()
+    ok = mk_bool(z3.SuffixOf(q1, q0)) & skipped_were_resolved(st_old, mk_num(k)) & mk_bool(k >= 0)
+    if len(calls) == 0:
+        return ok & Not(granted) & mk_bool(n1 == 0) & no_grant(s) & unchanged(s, st, "fencing_token")
+    if len(calls) != 1:
+        return False
+    f, v = calls[0]
+    if v is None:
+        return False
+    return (ok & granted & mk_bool(k < n0) & mk_bool(z3.Not(fut_resolved(WAITER.acc(1)(w), st_old._frozen)))
+            & one_fresh_grant(s, st, WAITER.acc(0)(w)) & mk_bool(f._ref == WAITER.acc(1)(w))
+            & (v.fencing_token == st.fencing_token) & mk_bool(zs(v.holder) == WAITER.acc(0)(w)) & (v.lock_name == s.lock_name))
+
+
+WAKE_ARGS = {"state": Ref(_LockState), "lock_name": Str}
+MANAGER_INV_NAMES = ("token-counter-positive", "every-recorded-token-is-below-the-counter", "configuration-lease-nonnegative")
+
+
+def manager_inv_but_queue(o):
+    """the class invariants of the manager except `a-free-lock-has-no-waiters` (which does not hold in the middle of a
+    release: the lock was just freed, its waiters are about to be served)"""
+    ci = REG.classes[DistributedLock]
+    ok = True
+    for name, f in ci.inv:
+        if name in MANAGER_INV_NAMES:
+            ok = ok & f(o)
+    return ok
+
+
+def free_elsewhere_no_waiters(o, st):
+    """a-free-lock-has-no-waiters for every lock except the one in hand"""
+    return forall(Str, lambda n: implies(mk_bool(z3.Select(LOCKS.dt.dom(field_term(o, "_locks")), n.t)) & holder_none(ls_at(o, n.t))
+                                         & mk_bool(ls_at(o, n.t)._ref != st._ref),
+                                         mk_bool(z3.Length(q_of(ls_at(o, n.t))) == 0)), "n")
+
+
+fn(DistributedLock, "_wake_next_waiter", args=WAKE_ARGS, uses=[GRANT_LOCK, FUT_RESOLVE], inv=False,
+   requires=[("the-lock-was-just-freed", lambda s: holder_none(s.state)),
+             ("state-of-this-lock", lambda s: in_map(s.self, s.lock_name, s.state)),
+             ("manager-invariants-except-the-queue-one", lambda s: manager_inv_but_queue(s.self) & free_elsewhere_no_waiters(s.self, s.state))],
+   ensures=[
+    ("first-pending-waiter-in-arrival-order-becomes-holder-with-a-fresh-token-and-is-told-so--else-the-lock-stays-free", lambda s: handed_on(
+        s, s.state, s.old(s.state))),
+    ("manager-invariants-restored-including-the-queue-one", lambda s: manager_inv_but_queue(s.self) & free_locks_have_no_waiters(s.self)),
+    ("other-locks-untouched", lambda s: only_this_lock_state_changes(s.old(s.self)._frozen, s.state) & unchanged(s, s.self, "_locks"))])
+
+
+def _freed_post(s, st, st_old):
+    """the previous holder's lease event is cancelled / dropped and the lock is handed on"""
+    return handed_on(s, st, st_old) & only_this_lock_state_changes(s.old(s.self)._frozen, st) & unchanged(s, s.self, "_locks")
+
+
+def _release_lock_post(s):
+    old_ev = s.old(s.state).lease_event
+    ok = (s.self._total_releases == s.old(s.self)._total_releases + 1) & unchanged(s, s.self, "_total_expirations")
+    if old_ev is not None:
+        ok = ok & ObjProxy(old_ev._ref, Event)._cancelled          # the released holder's lease can no longer fire
+    return ok & _freed_post(s, s.state, s.old(s.state))
+
+
+fn(DistributedLock, "_release_lock", args=WAKE_ARGS, uses=[GRANT_LOCK, FUT_RESOLVE],
+   requires=[("the-lock-is-held", lambda s: Not(holder_none(s.state))),
+             ("state-of-this-lock", lambda s: in_map(s.self, s.lock_name, s.state))],
+   ensures=[("holder-gives-up-the-lock--its-lease-is-cancelled--and-the-lock-is-handed-on-in-arrival-order", _release_lock_post)])
+
+
+def nothing_changes(s):
+    """manager, every lock state, every future and every event flag are untouched"""
+    return (unchanged(s, s.self) & only_this_lock_state_changes(s.old(s.self)._frozen, None) & pb(len(resolve_calls()) == 0) & no_grant(s)
+            & array_unchanged(s, Event, "_cancelled"))
+
+
+def held_with_token(o, name, token):
+    """lock `name` exists, is held, and its current fencing token is `token`"""
+    st = ls_at(o, zs(name))
+    return lock_known(o, name) & Not(holder_none(st)) & (st.fencing_token == token)
+
+
+def _release_post(s):
+    old = s.old(s.self)
+    st_old = ls_at(old, zs(s.lock_name))
+    effective = held_with_token(old, s.lock_name, s.fencing_token)
+    if s.result is True or s.result is False:
+        res = s.result
+    else:
+        return False
+    if not res:
+        return Not(effective) & nothing_changes(s)
+    st = state_now(s)
+    return (effective & mk_bool(st._ref == st_old._ref) & (s.self._total_releases == old._total_releases + 1)
+            & _freed_post(s, st, st_old))
+
+
+fn(DistributedLock, "release", args={"lock_name": Str, "fencing_token": Int}, uses=[GRANT_LOCK, FUT_RESOLVE], returns=Bool,
+   ensures=[("only-the-holders-current-token-releases--a-stale-or-foreign-token-or-a-free-lock-changes-nothing", _release_post)])
+
+
+# ---- lease expiry --------------------------------------------------------------------------------------------------
+def _expiry_effect(s, ev_md_old):
+    """an expiry event frees the lock iff it names a known lock that is held under exactly the token the event was armed
+    for; then the lock is handed on.  Afterwards the lock is free or held under a HIGHER token, so the same expiry
+    (a duplicate, or one that races a release) can never free it a second time."""
+    old = s.old(s.self)
+    m = ev_md_old
+    named = mhas(m, "lock_name")
+    name = mget(m, "lock_name")
+    st_old = ls_at(old, zs(name))
+    fires = named & mhas(m, "fencing_token") & held_with_token(old, name, mget(m, "fencing_token"))
+    st = ls_at(s.self, zs(name))
+    ns2 = s_with_lock_name(s, name)
+    return ite_b(fires,
+                 (s.self._total_expirations == old._total_expirations + 1) & unchanged(s, s.self, "_total_releases")
+                 & mk_bool(st._ref == st_old._ref) & _freed_post(ns2, st, st_old)
+                 & Not(held_with_token(s.self, name, mget(m, "fencing_token"))),
+                 nothing_changes(s))
+
+
+class _NSView:
+    """clause namespace with an extra / overridden attribute"""
+
+    def __init__(self, s, **kw):
+        object.__setattr__(self, "_s", s)
+        object.__setattr__(self, "_kw", kw)
+
+    def __getattr__(self, k):
+        kw = object.__getattribute__(self, "_kw")
+        return kw[k] if k in kw else getattr(object.__getattribute__(self, "_s"), k)
+
+
+def s_with_lock_name(s, name):
+    return _NSView(s, lock_name=name)
+
+
+fn(DistributedLock, "_handle_lease_expiry", args={"event": Ref(Event)}, uses=[GRANT_LOCK, FUT_RESOLVE],
+   ensures=[("expired-lease-frees-the-lock-exactly-once--stale-or-foreign-expiries-change-nothing", lambda s: _expiry_effect(
+       s, md(s.old(s.event))))])
+
+
+# ---- message interface: each event type has exactly the effect of the operation it names ------------------------------
+def _release_effect(s, name, token):
+    """effect of release(name, token) (see _release_post), without the boolean"""
+    old = s.old(s.self)
+    st_old, st = ls_at(old, zs(name)), ls_at(s.self, zs(name))
+    return ite_b(held_with_token(old, name, token),
+                 mk_bool(st._ref == st_old._ref) & (s.self._total_releases == old._total_releases + 1)
+                 & _freed_post(s_with_lock_name(s, name), st, st_old),
+                 nothing_changes(s))
+
+
+def _dispatch_post(s):
+    ev = s.old(s.event)
+    m = md(ev)
+    t = ev.event_type
+    is_exp, is_acq, is_rel = t == "LockLeaseExpiry", t == "LockAcquireRequest", t == "LockReleaseRequest"
+    ok = pb(s.result is None)
+    ok = ok & implies(is_exp, _expiry_effect(s, m))
+    rel_ok = mhas(m, "lock_name", "fencing_token")
+    ok = ok & implies(is_rel & rel_ok, _release_effect(s, mget(m, "lock_name"), mget(m, "fencing_token")))
+    acq_ok = mhas(m, "lock_name", "requester")
+    ok = ok & implies(is_acq & acq_ok, _acquire_post(_NSView(s, lock_name=mget(m, "lock_name"), requester=mget(m, "requester")), fut=None))
+    ok = ok & implies((is_rel & Not(rel_ok)) | (is_acq & Not(acq_ok)) | (Not(is_exp) & Not(is_acq) & Not(is_rel)), nothing_changes(s))
+    return ok
+
+
+fn(DistributedLock, "handle_event", args={"event": Ref(Event)}, uses=[GRANT_LOCK, FUT_RESOLVE], setup=_snap_alloc,
+   ensures=[("expiry-acquire-and-release-messages-have-exactly-the-effect-of-the-operation-they-name--anything-else-is-ignored",
+             _dispatch_post)])
+
+
+# ============================================================================ E. leader election: one leader per term
+# The statement's clause is per node: the pair (current_term, current_leader) a node reports is a function of the
+# term - a leader, once reported for a term, is never replaced under the same term number - and term numbers only
+# grow.  The component has no voting (Bully / Ring / Randomized announce a winner, nobody counts votes), so
+# "elected by a quorum" has no counterpart in the code; the election strategy is used through its interface only:
+# the clauses hold for EVERY strategy (its answers are arbitrary).
+import os  # noqa: E402
+
+from happysimulator.components.consensus.election_strategies import ElectionStrategy  # noqa: E402
+from happysimulator.components.consensus.leader_election import LeaderElection  # noqa: E402
+
+LE_REPAIRED = "self._current_leader in (None, leader)" in open(os.path.join(_ctx.REPO, F_LE)).read()
+MSGOUT = FixedRec("electionmsg", {"target": Str, "event_type": Str, "payload": Any})
+LE_LOOP.elem = MSGOUT
+ERESULT = Record("electionresult", {"response_messages": Seq(MSGOUT), "leader": OPTSTR, "suppress_election": Bool,
+                                    "start_own_election": Bool})
+cls(ElectionStrategy, fields={})
+cls(LeaderElection, fields={
+    "_network": Ref(Network), "_members": Map(Str, Ref(Entity)), "_strategy": Ref(ElectionStrategy),
+    "_election_timeout": Real, "_heartbeat_interval": Real, "_current_leader": OPTSTR, "_current_term": Int,
+    "_election_in_progress": Bool, "_last_leader_heartbeat": Real, "_timeout_event": OptRef(Event),
+    "_elections_started": Int, "_elections_won": Int, "_elections_participated": Int},
+    const=["_network", "_strategy", "_election_timeout", "_heartbeat_interval"])
+
+
+def le_leader(o):
+    return field_term(o, "_current_leader")
+
+
+def term_never_decreases(old, new):
+    return new._current_term >= old._current_term
+
+
+def one_leader_per_term(old, new):
+    """a leader reported for a term is never replaced (nor forgotten) under the same term number"""
+    return implies((new._current_term == old._current_term) & mk_bool(z3.Not(OPTSTR.dt.is_none(le_leader(old)))),
+                   mk_bool(le_leader(new) == le_leader(old)))
+
+
+LE_GUAR = [("term-numbers-only-grow", term_never_decreases)]
+if LE_REPAIRED:
+    # fails in _handle_leader_heartbeat on the unrepaired tree (fixes/C12_heartbeat-equal-term-keeps-leader.diff; native
+    # reproduction triage/c12_leader_election.py); every other function carries the clause as a postcondition below
+    LE_GUAR.append(("never-two-different-leaders-for-one-term", one_leader_per_term))
+cls(LeaderElection, guarantee=LE_GUAR)
+G2 = ("never-two-different-leaders-for-one-term", lambda s: one_leader_per_term(s.old(s.self), s.self))
+
+stub_of(ElectionStrategy, "handle_election_message", returns=ERESULT, modifies=[], ensures=[
+    lambda s: mk_bool(ERESULT.has(s.result.term, "response_messages"))])
+stub_of(ElectionStrategy, "get_election_messages", returns=Seq(MSGOUT), modifies=[], ensures=[
+    # bounded: the strategy asks at most 3 members per election (the code iterates the list twice)
+    lambda s: slen(s.result) <= 3])
+stub_of(Network, "send", returns=Ref(Event), modifies=[], ensures=[
+    lambda s: (s.result.event_type == s.event_type) & same(s.result.target, s.self)
+    & mhas(md(s.result), "source", "destination") & (mget(md(s.result), "source") == s.source.name)
+    & (mget(md(s.result), "destination") == s.destination.name) & carries_payload(md(s.result), s.payload)])
+STRAT_HANDLE, STRAT_MSGS, NET_SEND = (ElectionStrategy, "handle_election_message"), (ElectionStrategy, "get_election_messages"), (Network, "send")
+
+
+def carries_payload(m, payload):
+    """a heartbeat's literal payload {'leader': .., 'term': ..} is copied into the message; other payloads are opaque"""
+    if isinstance(payload, dict) and set(payload) == {"leader", "term"}:
+        return mhas(m, "leader", "term") & (mget(m, "leader") == payload["leader"]) & (mget(m, "term") == payload["term"])
+    return True
+
+
+def _heartbeat_post(s):
+    old, new, m = s.old(s.self), s.self, md(s.old(s.event))
+    term, leader = mget(m, "term"), mget(m, "leader")
+    adopted = (new._current_term == term) & mk_bool(le_leader(new) == OPTSTR.dt.some(zs(leader))) & Not(new._election_in_progress)
+    untouched = unchanged(s, new, "_current_term", "_current_leader", "_election_in_progress", "_last_leader_heartbeat")
+    return (implies(term < old._current_term, untouched)          # a leader is adopted only for a term >= the current one
+            & implies(term > old._current_term, adopted)
+            & (adopted | untouched))
+
+
+fn(LeaderElection, "_handle_leader_heartbeat", args={"event": Ref(Event)},
+   requires=[("well-formed-heartbeat", lambda s: mhas(md(s.event), "leader", "term"))],
+   ensures=[
+    ("leader-of-a-newer-term-is-adopted-with-its-term--a-stale-heartbeat-changes-nothing", _heartbeat_post),
+    ("election-counters-untouched", lambda s: unchanged(s, s.self, "_members", "_elections_started", "_elections_won"))])
+
+
+def _start_election_post(s):
+    old, new = s.old(s.self), s.self
+    won = mk_bool(le_leader(new) == OPTSTR.dt.some(zs(new.name)))
+    return ((new._current_term == old._current_term + 1) & (new._elections_started == old._elections_started + 1)
+            & (won | mk_bool(le_leader(new) == le_leader(old)))
+            & implies(mk_bool(le_leader(new) != le_leader(old)), Not(new._election_in_progress))
+            & unchanged(s, new, "_members", "_last_leader_heartbeat"))
+
+
+START_ELECTION_ENS = [
+    ("opens-a-fresh-term--the-only-leader-it-may-install-is-the-node-itself", _start_election_post), G2]
+fn(LeaderElection, "_start_election", uses=[STRAT_MSGS, NET_SEND], ensures=START_ELECTION_ENS)
+
+
+def named_leader():
+    """raw Opt(Str): the leader named by the strategy's answer on this path (None when it names none)"""
+    tr = [r for (q, _v, r) in _ctx.cur().ghost_args.get("trace", []) if q == "ElectionStrategy.handle_election_message"]
+    if len(tr) != 1:
+        raise SpecError("exactly one strategy call expected")
+    t = tr[0].term
+    return z3.If(ERESULT.has(t, "leader"), ERESULT.acc("leader")(t), OPTSTR.dt.none)
+
+
+def own_elections():
+    return len([1 for (q, _v, _r) in _ctx.cur().ghost_args.get("trace", []) if q == "LeaderElection._start_election"])
+
+
+def _election_message_post(s):
+    old, new = s.old(s.self), s.self
+    nl = named_leader()
+    named = mk_bool(z3.Not(OPTSTR.dt.is_none(nl)))
+    k = own_elections()
+    if k > 1:
+        return False
+    if k == 0:
+        # an announced leader is recorded under a FRESH term number; without an announcement term and leader stay
+        return (ite_b(named, (new._current_term == old._current_term + 1) & mk_bool(le_leader(new) == nl) & Not(new._election_in_progress),
+                      unchanged(s, new, "_current_term", "_current_leader"))
+                & (new._elections_participated == old._elections_participated + 1))
+    return (new._current_term == old._current_term + ite(named, 2, 1)) & (new._elections_participated == old._elections_participated + 1)
+
+
+# inside _handle_election_message the call of _start_election is replaced by the contract proved above
+stub_of(LeaderElection, "_start_election", returns=Seq(Ref(Event)), ensures=START_ELECTION_ENS,
+        modifies=["_election_in_progress", "_elections_started", "_current_term", "_current_leader", "_elections_won"])
+fn(LeaderElection, "_handle_election_message", args={"event": Ref(Event)},
+   uses=[STRAT_HANDLE, NET_SEND, (LeaderElection, "_start_election")], ensures=[
+    ("an-announced-leader-is-recorded-under-a-fresh-term--otherwise-term-and-leader-change-only-by-an-own-election",
+     _election_message_post), G2])
+
+
+# ---- periodic check: heartbeats name the sender and its current term; term/leader move only through an own election --
+def hb_ok(o, e):
+    m = md(e)
+    return (e.event_type == "LeaderHeartbeat") & mhas(m, "leader", "term") & (mget(m, "leader") == o.name) & (mget(m, "term") == o._current_term)
+
+
+def empty_events():
+    ty = Seq(Ref(Event))
+    return ty.wrap(ty.unwrap([]))
+
+
+def heartbeats_ok(o, events, upto=None):
+    if isinstance(events, list):
+        ok = True
+        for e in events:
+            ok = ok & hb_ok(o, e)
+        return ok
+    t = seq_term(events)
+    n = mk_num(z3.Length(t)) if upto is None else upto
+    alloc = _ctx.cur().heap.alloc
+    # (typing: the list holds events that exist - `<= alloc` - so an event created later is none of them)
+    return forall(Int, lambda i: implies((0 <= i) & (i < n), hb_ok(o, ObjProxy(t[i.t], Event)) & mk_bool(t[i.t] <= alloc)), "i")
+
+
+def _timeout_check_post(s):
+    old, new = s.old(s.self), s.self
+    was_leader = mk_bool(le_leader(old) == OPTSTR.dt.some(zs(old.name)))
+    k = own_elections()
+    if k > 1:
+        return False
+    ok = implies(was_leader, pb(k == 0) & heartbeats_ok(new, s.result, slen(s.result) - 1))
+    if k == 0:
+        ok = ok & unchanged(s, new, "_current_term", "_current_leader", "_election_in_progress")
+    else:
+        ok = ok & Not(old._election_in_progress)
+    return ok & (slen(s.result) >= 1)
+
+
+fn(LeaderElection, "_handle_timeout_check", args={"event": Ref(Event)}, uses=[NET_SEND, (LeaderElection, "_start_election")],
+   ensures=[("only-the-leader-sends-heartbeats--they-name-it-and-its-current-term--term-and-leader-move-only-by-an-own-election",
+             _timeout_check_post), G2])
+
+
+# ============================================================================ F. slot-based nodes (Flexible Paxos, Multi-Paxos)
+# What holds on the current tree and is kept under contract: the promise register (`_current_ballot`) never decreases,
+# Prepare/Accept below the promise are refused without effect, leadership needs a PHASE-1 quorum of promises, a slot is
+# committed only on a PHASE-2 quorum of acknowledgements, the commit index never moves backwards in the learner paths.
+# What does NOT hold (genuine defects, native reproduction triage/c12_multi_paxos.py, no small repair): an accepted
+# command is stored at last_index+1 whatever slot the leader named, a different-ballot Accept truncates the log
+# INCLUDING committed slots, a new leader ignores the logs carried by its promises.  The clauses that state these are
+# evaluated only with C12_STRICT_SLOTS=1 in the environment (they fail on the unrepaired tree).
+from happysimulator.components.consensus.log import LogEntry  # noqa: E402
+from happysimulator.components.consensus.multi_paxos import MultiPaxosNode  # noqa: E402
+
+# The clauses are ACTIVE: on the pinned tree they fail and are listed as OPEN known findings (KNOWN_FINDINGS.json,
+# keyed by exactly these (task, obligation) pairs), so the check prints KNOWN-FINDING for them and any other failure of
+# the slot handlers is still a VIOLATION.  (C12_STRICT_SLOTS=0 switches them off for experiments.)
+STRICT_SLOTS = os.environ.get("C12_STRICT_SLOTS", "1") == "1"
+LOGENTRY = valueclass("LogEntry", [LogEntry], [("index", Int), ("term", Int), ("command", Any)])
+cls(Log, fields={"_entries": Seq(LOGENTRY)},
+    inv=[("commit-index-within-the-log", lambda o: (0 <= o.commit_index) & (o.commit_index <= slen(o._entries)))])
+MNODE = Ref(MultiPaxosNode)
+cls(MultiPaxosNode, fields={
+    "_network": Ref(Network), "_peers": Seq(MNODE), "_state_machine": Ref(KVStateMachine), "_leader_lease_timeout": Real,
+    "_heartbeat_interval": Real, "_log": Ref(Log), "_last_applied": Int, "_current_ballot": BALLOT, "_leader": OPTSTR,
+    "_is_leader": Bool, "_leader_established": Bool, "_last_leader_heartbeat": Real, "_slot_futures": FUTS,
+    "_slot_commands": Map(Int, Any), "_slot_acks": Map(Int, Int), "_pending_commands": Seq(Tuple(Any, Ref(SimFuture))),
+    "_phase1_responses": Map(Int, Seq(Any)), "_heartbeat_event": OptRef(Event), "_commands_committed": Int, "_leader_changes": Int})
+
+
+def cur_ballot(o):
+    return ballot_term(o._current_ballot)
+
+
+def bt_le(a, b):
+    return z3.Not(bt_lt(b, a))
+
+
+def promise_never_decreases(old, new):
+    return mk_bool(bt_le(cur_ballot(old), cur_ballot(new)))
+
+
+def log_entries(o, frozen="same"):
+    lg = o._log
+    return field_term(lg if frozen == "same" else ObjProxy(lg._ref, Log, frozen), "_entries")
+
+
+def commit_of(o):
+    return field_term(ObjProxy(field_term(o, "_log"), Log, o._frozen), "commit_index")
+
+
+def entries_of(o):
+    return field_term(ObjProxy(field_term(o, "_log"), Log, o._frozen), "_entries")
+
+
+def log_untouched(s):
+    return mk_bool(z3.And(entries_of(s.self) == entries_of(s.old(s.self)), commit_of(s.self) == commit_of(s.old(s.self))))
+
+
+def commit_never_backwards(s):
+    return mk_bool(commit_of(s.self) >= commit_of(s.old(s.self)))
+
+
+def committed_prefix_stable(s):
+    """a slot decision is stable: the commit index does not move back and the committed entries stay what they were"""
+    old = s.old(s.self)
+    c0 = commit_of(old)
+    return mk_bool(z3.And(commit_of(s.self) >= c0, z3.Extract(entries_of(s.self), 0, c0) == z3.Extract(entries_of(old), 0, c0)))
+
+
+def calls_of(qual):
+    return len([1 for (q, _v, _r) in _ctx.cur().ghost_args.get("trace", []) if q == qual])
+
+
+def slot_node(K, relpath, tag, q1, q2, n_events_stub):
+    """contracts shared by FlexiblePaxosNode and MultiPaxosNode (same handler structure); q1 / q2: the phase-1 / phase-2
+    quorum of a node as a symbolic integer"""
+    kn = K.__name__
+    cls(K, guarantee=[("A1-promise-never-decreases", promise_never_decreases)])
+    # configuration (the handlers that look the sender up iterate the peer list natively): clusters of 3..5 nodes
+    CLUSTER = ("cluster-of-3-to-5", lambda s: (2 <= slen(s.self._peers)) & (slen(s.self._peers) <= 4))
+    LOGFOCUS = dict(focus=lambda s: [s.self._log])
+    BCMP = [(Ballot, "__gt__"), (Ballot, "__lt__"), (Ballot, "__ge__")]
+    stub_of(K, "_become_leader", returns=Seq(Ref(Event)), ensures=[
+        lambda s: promise_never_decreases(s.old(s.self), s.self),
+        lambda s: mk_bool(z3.PrefixOf(entries_of(s.old(s.self)), entries_of(s.self)))],      # (it only appends: pending commands get slots)
+            modifies=["_is_leader", "_leader", "_pending_commands", "_slot_futures", "_slot_acks", "_heartbeat_event"]
+            + [f for f in ("_leader_established", "_leader_changes", "_last_leader_heartbeat", "_slot_commands") if REG.field(K, f) is not None]
+            + [((lambda s: s.self._log), "_entries")])
+    stub_of(K, "_apply_committed", modifies=["_last_applied", "_commands_committed", "_slot_futures"], ensures=[])
+    CONTRACTS_K = {"lead": (K, "_become_leader"), "apply": (K, "_apply_committed")}
+
+    def msg_b(s):
+        return msg_ballot(md(s.old(s.event)))
+
+    def adopted(s):
+        return mk_bool(bt_eq(cur_ballot(s.self), msg_b(s)))
+
+    # ---- acceptor: Prepare ----
+    def prepare_post(s):
+        old = s.old(s.self)
+        es = msgs(s)
+        refused = mk_bool(bt_lt(msg_b(s), cur_ballot(old)))
+        if len(es) == 0:
+            return Not(known_sender(s)) & unchanged(s, s.self) & log_untouched(s)
+        if len(es) != 1:
+            return False
+        return known_sender(s) & log_untouched(s) & ite_b(
+            refused, (es[0].event_type == tag + "Nack") & unchanged(s, s.self),
+            (es[0].event_type == tag + "Promise") & adopted(s) & Not(s.self._is_leader))
+    fn(K, "_handle_prepare", args={"event": Ref(Event)}, uses=BCMP + [NET_SEND], **LOGFOCUS,
+       requires=[CLUSTER, ("well-formed-prepare", lambda s: mhas(md(s.event), *BALLOT_KEYS))],
+       ensures=[("A1-prepare-below-the-promise-is-refused-without-effect--otherwise-the-promise-moves-to-it", prepare_post)])
+
+    # ---- acceptor: Accept ----
+    def accept_post(s):
+        old = s.old(s.self)
+        es = msgs(s)
+        refused = mk_bool(bt_lt(msg_b(s), cur_ballot(old)))
+        if len(es) == 0:
+            return Not(known_sender(s)) & unchanged(s, s.self) & log_untouched(s)
+        if len(es) != 1:
+            return False
+        return known_sender(s) & ite_b(
+            refused, (es[0].event_type == tag + "Nack") & unchanged(s, s.self) & log_untouched(s),
+            (es[0].event_type == tag + "Accepted") & adopted(s)
+            & mk_bool(field_term(s.self, "_leader") == OPTSTR.dt.some(M.f_ballot_node(md(s.old(s.event))))))
+
+    def accept_slot_post(s):
+        """STRICT: after accepting, the named slot holds exactly the offered (ballot number, command)"""
+        old, req = s.old(s.self), md(s.old(s.event))
+        es = msgs(s)
+        if len(es) != 1:
+            return True
+        slot = M.f_slot(req)
+        e = entries_of(s.self)[slot - 1]
+        accepted_it = mk_bool(z3.Not(bt_lt(msg_b(s), cur_ballot(old))))
+        return implies(accepted_it & mk_bool(slot >= 1), mk_bool(z3.And(
+            z3.Length(entries_of(s.self)) >= slot, LOGENTRY.dt.term(e) == M.f_ballot_number(req), LOGENTRY.dt.command(e) == M.f_command(req))))
+    acc_ens = [("A1-accept-below-the-promise-is-refused-without-effect--otherwise-promise-and-leader-follow-the-ballot", accept_post)]
+    if STRICT_SLOTS:
+        acc_ens += [("STRICT-accepted-command-is-stored-in-the-slot-the-leader-named", accept_slot_post),
+                    ("STRICT-committed-slots-are-stable", committed_prefix_stable)]
+    fn(K, "_handle_accept", args={"event": Ref(Event)}, uses=BCMP + [NET_SEND, CONTRACTS_K["apply"]], **LOGFOCUS,
+       requires=[CLUSTER, ("well-formed-accept", lambda s: mhas(md(s.event), "slot", "command", *BALLOT_KEYS))], ensures=acc_ens)
+
+    # ---- proposer: promises -> leadership needs the PHASE-1 quorum ----
+    def promise_post(s):
+        old, new, req = s.old(s.self), s.self, md(s.old(s.event))
+        b = mget(req, "ballot_number")
+        known = mk_bool(map_has(P1F, field_term(old, "_phase1_responses"), b))
+        n_new = mk_num(z3.Length(map_val(P1F, field_term(new, "_phase1_responses"), b)))
+        n_old = mk_num(z3.Length(map_val(P1F, field_term(old, "_phase1_responses"), b)))
+        led = calls_of(kn + "._become_leader")
+        if led > 1:
+            return False
+        ok = ite_b(known, n_new == n_old + 1, unchanged(s, new) & pb(led == 0))
+        if led == 1:
+            return ok & (n_new >= q1(new))
+        return ok & implies(known, n_new < q1(new)) & unchanged(s, new, "_is_leader", "_leader", "_current_ballot") & log_untouched(s)
+    fn(K, "_handle_promise", args={"event": Ref(Event)}, uses=[CONTRACTS_K["lead"]], **LOGFOCUS,
+       requires=[("well-formed-promise", lambda s: mhas(md(s.event), "ballot_number"))],
+       ensures=[("leadership-is-taken-exactly-when-the-promises-of-that-ballot-reach-the-phase-1-quorum", promise_post)])
+
+    # ---- learner: acknowledgements -> commit needs the PHASE-2 quorum ----
+    def accepted_post(s):
+        old, new, req = s.old(s.self), s.self, md(s.old(s.event))
+        slot = mget(req, "slot")
+        acks_old = mk_num(z3.If(map_has(ACKS, field_term(old, "_slot_acks"), slot), map_val(ACKS, field_term(old, "_slot_acks"), slot), 0))
+        acks_new = mk_num(map_val(ACKS, field_term(new, "_slot_acks"), slot))
+        moved = mk_bool(commit_of(new) != commit_of(old))
+        return ((acks_new == acks_old + 1) & commit_never_backwards(s) & mk_bool(entries_of(new) == entries_of(old))
+                & implies(moved, (acks_new >= q2(new)) & mk_bool(commit_of(new) <= num(slot)))
+                & unchanged(s, new, "_current_ballot", "_is_leader", "_leader"))
+    fn(K, "_handle_accepted", args={"event": Ref(Event)}, uses=[CONTRACTS_K["apply"]], **LOGFOCUS,
+       requires=[("well-formed-accepted", lambda s: mhas(md(s.event), "slot"))],
+       ensures=[("a-slot-is-committed-only-on-a-phase-2-quorum-of-acknowledgements--never-beyond-it--never-backwards", accepted_post)])
+
+    # ---- nack ----
+    def nack_post(s):
+        old, new, req = s.old(s.self), s.self, md(s.old(s.event))
+        hb = BD.mk(z3.IntVal(0), z3.If(MSG.has(req, "ballot_number"), M.f_ballot_number(req), z3.IntVal(0)),
+                   z3.If(MSG.has(req, "ballot_node"), M.f_ballot_node(req), z3.StringVal("")))
+        higher = mk_bool(bt_lt(cur_ballot(old), hb))
+        return ite_b(higher, mk_bool(bt_eq(cur_ballot(new), hb)) & Not(new._is_leader), unchanged(s, new)) & log_untouched(s)
+    fn(K, "_handle_nack", args={"event": Ref(Event)}, uses=BCMP, **LOGFOCUS,
+       ensures=[("a-higher-ballot-is-adopted-and-ends-the-own-leadership--anything-else-is-ignored", nack_post)])
+
+    # ---- heartbeat of a peer (FlexiblePaxosNode tells its own timer apart by `self_heartbeat`; MultiPaxosNode does not:
+    #      its own timer event runs this same path and ends its leadership - a liveness defect, see the report) ----
+    def heartbeat_post(s):
+        old, new, req = s.old(s.self), s.self, md(s.old(s.event))
+        hb = BD.mk(z3.IntVal(0), z3.If(MSG.has(req, "ballot_number"), M.f_ballot_number(req), z3.IntVal(0)),
+                   z3.If(MSG.has(req, "ballot_node"), M.f_ballot_node(req), z3.StringVal("")))
+        current = mk_bool(bt_le(cur_ballot(old), hb))
+        return (ite_b(current, mk_bool(bt_eq(cur_ballot(new), hb)) & Not(new._is_leader)
+                      & mk_bool(field_term(new, "_leader") == OPTSTR.dt.some(BD.node_id(hb))),
+                      unchanged(s, new) & log_untouched(s))
+                & commit_never_backwards(s) & mk_bool(entries_of(new) == entries_of(old)))
+    fn(K, "_handle_heartbeat", args={"event": Ref(Event)}, uses=BCMP + [CONTRACTS_K["apply"]], **LOGFOCUS,
+       requires=[("a-peers-heartbeat", lambda s: Not(mhas(md(s.event), "self_heartbeat")))],
+       ensures=[("a-heartbeat-at-or-above-the-promise-moves-the-promise-to-it-and-ends-the-own-leadership--a-stale-one-is-ignored--"
+                 "the-commit-index-never-moves-back", heartbeat_post)])
+
+
+P1F = Map(Int, Seq(Any))
+ACKS = Map(Int, Int)
+slot_node(FlexiblePaxosNode, F_FLEX, "FlexPaxos", lambda o: o._phase1_quorum, lambda o: o._phase2_quorum, None)
+slot_node(MultiPaxosNode, F_MULTI, "MultiPaxos", lambda o: quorum(o), lambda o: quorum(o), None)
